@@ -207,7 +207,8 @@ def reservoir_bfs(acc, tier, i, n):
 ROUTES = ['ok', 'redir', 'raise403', 'ret404', 'boom', 'nb', 'catch', 'nf', 'mna', 'reroute', 'raise422', 'inner-ok']
 # raise422: an HTTP error raised with an explicit code= ; inner-ok: a route of an embedded application that brought
 # its own StatsMiddleware instance (merged away: the serving application's instance counts)
-STEPS = ROUTES + ['read', 'reset', 'other-app', 'other-reset', 'swap-handler', 'late-add']
+STEPS = ROUTES + ['read', 'reset', 'other-app', 'other-reset', 'swap-handler', 'late-add', 'read-html', 'reset-html']
+# read-html / reset-html: the stats pages as a browser asks for them (Accept: text/html)
 # swap-handler: the live application gets a new error handler; late-add: a route is added to the live application.
 # Neither is a request: the counts must be unaffected.
 
@@ -313,6 +314,15 @@ class StatsWorld(object):
             r = wsgi.call(self.other, '/stats/reset', 'POST', query='format=json')
             if r.raised is not None or r.code != 200:
                 return ('other-reset', 'reset of the other application answered %s %r' % (r.status, r.raised))
+            return None
+        if s in ('read-html', 'reset-html'):
+            path, method = ('/stats/', 'GET') if s == 'read-html' else ('/stats/reset', 'POST')
+            res = wsgi.call(app, path, method, headers={'Accept': 'text/html,application/xhtml+xml,application/xml;q=0.9,*/*;q=0.8'})
+            if s == 'reset-html':
+                self.model = {}
+            self.count(path, '200')
+            if res.raised is not None or res.code != 200 or b'<' not in (res.body or b''):
+                return ('stats-page-failed', '%s %s as a browser asks for it answered %s %r %r' % (method, path, res.status, res.raised, (res.body or b'')[:120]))
             return None
         if s == 'read':
             res = wsgi.call(app, '/stats/', 'GET', query='format=json')
